@@ -51,6 +51,12 @@ def run(ctx):
     for i in range(6 if q else 60):
         p = gen.rand_project(rnd, spec, depth=rnd.choice([0, 1, 2]), small=True)
         sources.append(("gen%d.sunvox" % i, p.read()))
+    for i in range(3 if q else 30):      # clones and patterns left of / above the timeline origin (signed positions)
+        p = gen.rand_project(rnd, spec, depth=0, small=True, nmods=1)
+        p.attach_pattern(api.Pattern(tracks=1, lines=2, x=-4 - i, y=-1))
+        p.attach_pattern(api.PatternClone(source=len(p.patterns) - 1, x=-7 - i, y=-2147483648))
+        p.attach_pattern(api.PatternClone(source=0, x=2147483647, y=-1, flags_PFFF=9))
+        sources.append(("gen-clones%d.sunvox" % i, p.read()))
     nfix = 0
     for name, data in sources:
         base = tlv.to_json_nested(data)
